@@ -245,6 +245,8 @@ type gcpBalancer struct {
 	refreshingScRefs map[balancer.SubConn]*subConnRef
 	// Unresponsive detection enabled flag.
 	unresponsiveDetection bool
+	// Whether a state/picker pair has been handed to the ClientConn yet.
+	statePublished bool
 
 	picker balancer.Picker
 	log    grpclog.LoggerV2
@@ -624,8 +626,12 @@ func (gb *gcpBalancer) UpdateSubConnState(sc balancer.SubConn, scs balancer.SubC
 	//  - this sc became not-ready from ready
 	//  - the aggregated state of balancer became TransientFailure from non-TransientFailure
 	//  - the aggregated state of balancer became non-TransientFailure from TransientFailure
-	if (s == connectivity.Ready) != (oldS == connectivity.Ready) ||
+	//  - nothing has been published yet: gb.state starts as the zero value (Idle), which is not
+	//    an aggregate of any pool, so the first report (e.g. the pool starts connecting, the
+	//    aggregate leaves TransientFailure) would otherwise go unnoticed
+	if !gb.statePublished || (s == connectivity.Ready) != (oldS == connectivity.Ready) ||
 		(gb.state == connectivity.TransientFailure) != (oldAggrState == connectivity.TransientFailure) {
+		gb.statePublished = true
 		gb.regeneratePicker()
 		gb.cc.UpdateState(balancer.State{
 			ConnectivityState: gb.state,
